@@ -18,6 +18,7 @@ import (
 	"os"
 	"path/filepath"
 	"reflect"
+	"runtime/debug"
 	"sort"
 	"strings"
 	"testing"
@@ -90,6 +91,19 @@ func loadCorpus() {
 		{text: "match (n) where n.objectid = $p0 return n", params: map[string]any{"p0": []any{map[string]any{"k": "v"}, map[string]any{"n": int64(1)}}}},
 		{text: "match (s)-[r]->(e) where id(s) in $ids and e.name = $name return r", params: map[string]any{"ids": []any{graph.ID(9)}, "name": "n"}},
 	}
+	rich = append(rich,
+		// nested map values with nil slices (the translator turns them into JSONB)
+		qcase{text: "match (n) where n.prop = $m return n", params: map[string]any{"m": map[string]any{"k": []string(nil), "j": []any(nil), "s": "x"}}},
+		qcase{text: "match (n) set n.prop = $m return n", params: map[string]any{"m": map[string]any{"k": []string(nil)}}},
+		// a parameter and a variable with the same name live in different namespaces
+		qcase{text: "match (p) where p.name = $p return p", params: map[string]any{"p": "x"}},
+		qcase{text: "match (n)-[r]->(e) where n.name = $n and e.name = $e and r.weight = $r return n, e", params: map[string]any{"n": "a", "e": "b", "r": int64(3)}},
+		// several removals / updates on one entity
+		qcase{text: "match (n) remove n.a, n.b, n.c, n.d return n"},
+		qcase{text: "match (n) where n.x = 1 remove n.alpha, n.beta set n.gamma = 1, n.delta = 2 return n"},
+		qcase{text: "match (a)-[r]->(b) remove r.one, r.two, a.three, a.four, b.five, b.six return a"},
+		qcase{text: "match (n) set n.a = 1, n.b = 2, n.c = 3 remove n.d, n.e return n"},
+	)
 	corpus = append(corpus, rich...)
 	// a few builder-style / awkward extras
 	for _, q := range []string{
@@ -180,11 +194,17 @@ type outcome struct {
 	SQL    string
 	Params map[string]any
 	Err    string
+	Panic  string
 }
 
 var dumper = spew.ConfigState{Indent: " ", DisablePointerAddresses: true, DisableCapacities: true, SortKeys: true, SpewKeys: true, DisableMethods: true}
 
-func translateOnce(ctx context.Context, q *cypher.RegularQuery, params map[string]any) outcome {
+func translateOnce(ctx context.Context, q *cypher.RegularQuery, params map[string]any) (o outcome) {
+	defer func() {
+		if r := recover(); r != nil {
+			o = outcome{Panic: fmt.Sprintf("%v\n%s", r, debug.Stack())}
+		}
+	}()
 	res, err := translate.Translate(ctx, q, mapper{}, params, translate.DefaultGraphID)
 	if err != nil {
 		return outcome{Err: err.Error()}
@@ -206,9 +226,17 @@ func reference(qi int) (outcome, error) {
 	if err != nil {
 		return outcome{}, err
 	}
-	o := translateOnce(context.Background(), q, cloneParams(corpus[qi].params))
+	soloParams := cloneParams(corpus[qi].params)
+	soloBefore := dumper.Sdump(q, soloParams)
+	o := translateOnce(context.Background(), q, soloParams)
+	if after := dumper.Sdump(q, soloParams); o.Panic == "" && after != soloBefore {
+		return o, fmt.Errorf("CALLER-STATE a single translation of %q changed the caller's AST / parameter map: %s", corpus[qi].text, firstDiff(soloBefore, after))
+	}
+	if o.Panic != "" {
+		return o, fmt.Errorf("PANIC translating %q: %s", corpus[qi].text, o.Panic)
+	}
 	// repeated solo calls must already agree (map iteration order is the only nondeterminism here)
-	for i := 0; i < 3; i++ {
+	for i := 0; i < 8; i++ {
 		q2, _ := parse(corpus[qi])
 		o2 := translateOnce(context.Background(), q2, cloneParams(corpus[qi].params))
 		if o2.SQL != o.SQL || o2.Err != o.Err || !reflect.DeepEqual(o2.Params, o.Params) {
@@ -219,15 +247,44 @@ func reference(qi int) (outcome, error) {
 	return o, nil
 }
 
+// cloneParams deep-copies parameter values (maps and slices of any type, nil-ness preserved), so that
+// every call starts from pristine caller-owned values.
 func cloneParams(m map[string]any) map[string]any {
 	if m == nil {
 		return nil
 	}
-	c := make(map[string]any, len(m))
-	for k, v := range m {
-		c[k] = v
+	return deepClone(reflect.ValueOf(m)).Interface().(map[string]any)
+}
+
+func deepClone(v reflect.Value) reflect.Value {
+	switch v.Kind() {
+	case reflect.Map:
+		if v.IsNil() {
+			return v
+		}
+		c := reflect.MakeMapWithSize(v.Type(), v.Len())
+		for _, k := range v.MapKeys() {
+			c.SetMapIndex(k, deepClone(v.MapIndex(k)))
+		}
+		return c
+	case reflect.Slice:
+		if v.IsNil() {
+			return v
+		}
+		c := reflect.MakeSlice(v.Type(), v.Len(), v.Len())
+		for i := 0; i < v.Len(); i++ {
+			c.Index(i).Set(deepClone(v.Index(i)))
+		}
+		return c
+	case reflect.Interface:
+		if v.IsNil() {
+			return v
+		}
+		c := reflect.New(v.Type()).Elem()
+		c.Set(deepClone(v.Elem()))
+		return c
 	}
-	return c
+	return v
 }
 
 func gen(r *rand.Rand) WL {
@@ -263,6 +320,12 @@ func exec(t *testing.T, w WL, cfg simrt.Config) simh.Outcome {
 		ref, err := reference(tk.Q)
 		if err != nil {
 			o.Class, o.Detail = "oracle:solo_nondeterminism", err.Error()
+			if strings.HasPrefix(err.Error(), "PANIC") {
+				o.Class = "panic"
+			}
+			if strings.HasPrefix(err.Error(), "CALLER-STATE") {
+				o.Class = "oracle:caller_state_modified"
+			}
 			return o
 		}
 		refs[i] = ref
@@ -318,6 +381,10 @@ func exec(t *testing.T, w WL, cfg simrt.Config) simh.Outcome {
 			continue
 		}
 		fired := states[i].fired
+		if got[i].Panic != "" {
+			o.Class, o.Detail = "panic", fmt.Sprintf("task %d translating %q: %s", i, corpus[tk.Q].text, got[i].Panic)
+			return o
+		}
 		switch {
 		case fired:
 			if got[i].Err == "" {
